@@ -110,10 +110,26 @@ def statement_slice(relpath, qualname, start_pat, end_pat=None, include_end=Fals
     The slice is wrapped into a synthetic FunctionDef whose parameters are given by the contract."""
     src, tree = parse_file(relpath)
     fn = find_def(tree, qualname)
-    body = fn.body
-    texts = [ast.unparse(s) for s in body]
-    si = next((i for i, t in enumerate(texts) if start_pat in t.split('\n')[0] or start_pat in t[:200]), None)
-    if si is None:
+    # every statement list inside the function (top-level body first, then nested blocks in source order)
+    blocks = [fn.body]
+    for n in ast.walk(fn):
+        if n is fn:
+            continue
+        for field in ('body', 'orelse', 'finalbody'):
+            b = getattr(n, field, None)
+            if isinstance(b, list) and b and isinstance(b[0], ast.stmt):
+                blocks.append(b)
+        if isinstance(n, ast.Try):
+            for h in n.handlers:
+                blocks.append(h.body)
+    body = si = None
+    for b in blocks:
+        texts = [ast.unparse(x) for x in b]
+        si = next((i for i, t in enumerate(texts) if start_pat in t.split('\n')[0]), None)
+        if si is not None:
+            body = b
+            break
+    if body is None:
         raise AnchorLost("anchor lost: slice start %r in %s" % (start_pat, qualname))
     ei = len(body)
     if end_pat is not None:
